@@ -233,6 +233,8 @@ impl Folder {
     ) -> crate::Result<WriteEvent> {
         let mut access_point = self.access_point.lock().await;
         let event = access_point.create_secret(secret_data).await?;
+        #[cfg(sos_verif)]
+        sos_core::verif::probe("folder::create_secret::vault_written");
         let mut events = self.events.write().await;
         events.apply(std::slice::from_ref(&event)).await?;
         Ok(event)
@@ -267,6 +269,8 @@ impl Folder {
         if let Some(event) =
             access_point.update_secret(id, secret_meta, secret).await?
         {
+            #[cfg(sos_verif)]
+            sos_core::verif::probe("folder::update_secret::vault_written");
             let mut events = self.events.write().await;
             events.apply(std::slice::from_ref(&event)).await?;
             Ok(Some(event))
@@ -282,6 +286,8 @@ impl Folder {
     ) -> Result<Option<WriteEvent>> {
         let mut access_point = self.access_point.lock().await;
         if let Some(event) = access_point.delete_secret(id).await? {
+            #[cfg(sos_verif)]
+            sos_core::verif::probe("folder::delete_secret::vault_written");
             let mut events = self.events.write().await;
             events.apply(std::slice::from_ref(&event)).await?;
             Ok(Some(event))
@@ -299,6 +305,8 @@ impl Folder {
         access_point
             .set_vault_name(name.as_ref().to_owned())
             .await?;
+        #[cfg(sos_verif)]
+        sos_core::verif::probe("folder::rename_folder::vault_written");
         let event = WriteEvent::SetVaultName(name.as_ref().to_owned());
         let mut events = self.events.write().await;
         events.apply(std::slice::from_ref(&event)).await?;
@@ -312,6 +320,8 @@ impl Folder {
     ) -> Result<WriteEvent> {
         let mut access_point = self.access_point.lock().await;
         access_point.set_vault_flags(flags.clone()).await?;
+        #[cfg(sos_verif)]
+        sos_core::verif::probe("folder::update_folder_flags::vault_written");
         let event = WriteEvent::SetVaultFlags(flags);
         let mut events = self.events.write().await;
         events.apply(std::slice::from_ref(&event)).await?;
@@ -342,6 +352,8 @@ impl Folder {
     pub async fn set_meta(&mut self, meta: &VaultMeta) -> Result<WriteEvent> {
         let mut access_point = self.access_point.lock().await;
         let event = access_point.set_vault_meta(meta).await?;
+        #[cfg(sos_verif)]
+        sos_core::verif::probe("folder::set_meta::vault_written");
         let mut events = self.events.write().await;
         events.apply(std::slice::from_ref(&event)).await?;
         Ok(event)
